@@ -173,10 +173,18 @@ def kf_group_alg_loop(case, mode, im, dev):
     flat = M.flatten(case["mdl"])
     grp, sig = structure_groups(flat)
     ops = {(n["path"], o["name"]): o for n in flat["nodes"] for o in n["ops"]}
+    edge_nodes = {n["path"] for n in flat["nodes"] if n.get("is_edge")}
+    out_of = {}
     for e in flat["edges"]:
+        out_of.setdefault(e["src"][0], []).append(e["tgt"][0])
+    for e in flat["edges"]:
+        if e["src"][0] in edge_nodes:
+            continue
         o = ops[(e["src"][0], e["src"][1])]
         is_alg = any(q["lhs"] == e["src"][2] and not q["de"] for q in o["eqs"])
-        if is_alg and grp[e["src"][0]] == grp[e["tgt"][0]]:
+        # an edge with an edge template passes through its edge node: the connected pair is (source node, node behind the edge node)
+        finals = out_of.get(e["tgt"][0], []) if e["tgt"][0] in edge_nodes else [e["tgt"][0]]
+        if is_alg and any(grp[e["src"][0]] == grp[t] for t in finals if t in grp):
             return True
     return False
 
